@@ -34,7 +34,8 @@ COMPONENTS = {
              "real temporary files (tempfile.NamedTemporaryFile) in a run-private directory", "real os.chdir/getcwd"],
     "stub": ["time module seen by application.py -> virtual clock", "subprocess.Popen -> SimPopen (in-process scripted child)",
              "subprocess.run (version probe) -> scripted banner", "external MSA programs -> fake tools in /verif/sim/simworld.py",
-             "tempfile name sequence -> seeded", "StubLocalApp / StubPollApp: logic-free subclasses that drive the base classes alone",
+             "tempfile name sequence -> seeded", "StubLocalApp / StubPollApp / StubMSAApp: logic-free subclasses that drive the base classes alone (StubMSAApp: command line + the four supports_*() hooks, answers drawn per run)",
+             "signals -> InjectedInterrupt / InjectedExit / InjectedAbort raised at a launch or inside a blocking wait at a chosen simulated instant",
              "web server of the WebApp flavour -> in-process rate limiter on the virtual clock (one contact per `gap` seconds)"],
 }
 RULE = ("Each run: the PRNG picks 1-2 wrappers (kind, sequence set, matrix, fault script, version banner), then up to 30 "
